@@ -84,7 +84,7 @@ func (c *lexerCompiler) compile(file ast.File) {
 
 	var err error
 	allowBacktracking := !c.opts.NonBacktracking
-	out.Tables, err = lex.Compile(c.rules, c.opts.ScanBytes, allowBacktracking)
+	out.Tables, err = lex.CompileWithConditions(c.rules, len(out.StartConditions), c.opts.ScanBytes, allowBacktracking)
 	c.AddError(err)
 
 	if inline {
